@@ -146,6 +146,29 @@ def r82(ctx, fx, keywords):
                 if not normalised:
                     ctx.finding(rid, key, "%s compares text the parser accepted case-insensitively (%s) with a case-sensitive `match`: `%s` is accepted by the "
                                 "grammar but not understood here" % (f.path, ", ".join(hit), hit[0].upper()), "%s:%s" % (f.file, m.get("ln")))
+        # `text == "keyword"` / `"keyword" == text` / text.eq("keyword")
+        for x in lib.hwalk(f.hir["body"]):
+            lit = other = None
+            if x.get("k") == "binary" and x["op"] in ("Eq", "Ne"):
+                for a, b in ((x["l"], x["r"]), (x["r"], x["l"])):
+                    if isinstance(lib.hlit(a), str):
+                        lit, other = lib.hlit(a), b
+            elif x.get("k") == "mcall" and x.get("name") in ("eq", "ne") and x.get("args") and isinstance(lib.hlit(x["args"][0]), str):
+                lit, other = lib.hlit(x["args"][0]), x["recv"]
+            if lit is None or lit.lower() not in allkw or not lit.replace(".", "").isalpha():
+                continue
+            oty = (lib.strip(other).get("ty") or "")
+            if "str" not in oty and "String" not in oty:
+                continue
+            d = repr(lib.hdesc(other))
+            normalised = "to_lowercase" in d or "to_ascii_lowercase" in d
+            cnt += 1
+            n += 1
+            key = "%s|eq-str#%d" % (f.path, cnt)
+            ctx.inst(rid, key, sample={"fn": f.path, "keyword": lit, "normalised": normalised, "line": x.get("ln")})
+            if not normalised:
+                ctx.finding(rid, key, "%s compares text with the keyword %r case-sensitively (`==`) although the grammar accepts it in any letter case" % (f.path, lit),
+                            "%s:%s" % (f.file, x.get("ln")))
     ctx.extra["case_insensitive_keywords"] = allkw
     if len(allkw) < 20:
         ctx.fail_closed(rid, "fewer than 20 case-insensitive keywords found in the grammar (%d)" % len(allkw))
